@@ -181,6 +181,8 @@ var c19Faults = []struct {
 	text string
 }{
 	{"illegal-char-in-tag", "{$x # 1}"},
+	{"invalid-utf8-in-tag", "{$x \xe9 1}"},
+	{"invalid-utf8-lone-lead-in-tag", "{$x + \xc3}"},
 	{"stray-closing-brace", "text } more"},
 	{"unterminated-string", "{'abc}"},
 	{"unknown-command", "{/fooo}"},
